@@ -544,6 +544,7 @@ PASSWORD = "urn:oasis:names:tc:SAML:2.0:ac:classes:Password"
 KEYNUM = {"idp": 7, "sp": 21, "sp2": 22, "other": 23}
 IDS = {
     "plain": (env.IDP_ID, env.SP_ID),
+    "second": (env.IDP_ID, env.SP2_ID),
     "special": ("https://idp.example.org/idp?tenant=a&b=<1>\"q\"", "https://sp.example.org/sp?x=1&y='2' é"),
 }
 ACS = {"post": env.SP_ACS_POST, "redirect": env.SP_ACS_REDIRECT, "soap": env.SP_ACS_POST}
@@ -565,7 +566,14 @@ POLICIES = {
     "other-sp": lambda sp: {"default": {"lifetime": {"minutes": 20}}, "https://other.example.org/sp": {"lifetime": {"seconds": 5}, "name_form": NF_BASIC}},
     "sp-none": lambda sp: {"default": {"lifetime": {"minutes": 20}, "name_form": NF_BASIC}, sp: {"lifetime": None, "name_form": None}},
     "no-converter": lambda sp: {"default": {"lifetime": {"minutes": 15}, "name_form": "urn:example:no-such-format"}},
+    # one IdP serving two SPs with their own sections (the same dictionary whichever SP is asked about)
+    "two-sps": lambda sp: {"default": {"lifetime": {"minutes": 15}, "name_form": NF_URI},
+                           env.SP_ID: {"lifetime": {"seconds": 90}, "name_form": NF_BASIC},
+                           env.SP2_ID: {"lifetime": {"hours": 2}}},
 }
+# IdP objects that load the metadata of SEVERAL SPs: group name -> the SP settings (case fields) of its members
+GROUPS = {"two-sps": [dict(ids="plain", wants=(False, True, False), allow_unsolicited=False, allow_unknown=False, slack=0, sp_enc="own"),
+                      dict(ids="second", wants=(True, False, False), allow_unsolicited=False, allow_unknown=True, slack=0, sp_enc="none")]}
 
 
 def _secs(d):
@@ -633,7 +641,8 @@ class World(object):
 
     @staticmethod
     def idp_key(c):
-        return (c["ids"], c["policy"], tuple(sorted((k, v) for k, v in c["idp_defaults"].items())))
+        return (IDS[c["ids"]][0], c["policy"] if c.get("group") or not c["policy"].startswith("sp-") else (c["policy"], IDS[c["ids"]][1]),
+                tuple(sorted((k, v) for k, v in c["idp_defaults"].items())))
 
     def get(self, c):
         ks, ki = self.sp_key(c), self.idp_key(c)
@@ -641,6 +650,21 @@ class World(object):
             self.md[("sp", ks)] = env.metadata_of(self.sp_conf(c), SPConfig)
         if ("idp", ki) not in self.md:
             self.md[("idp", ki)] = env.metadata_of(self.idp_conf(c), IdPConfig)
+        group = c.get("group")
+        if group:
+            # one long-lived IdP for all members of the group
+            if (ki, group) not in self.idps:
+                from saml2_tophat.server import Server
+                mds = []
+                for member in GROUPS[group]:
+                    mc = dict(c, **member)
+                    if ("sp", self.sp_key(mc)) not in self.md:
+                        self.md[("sp", self.sp_key(mc))] = env.metadata_of(self.sp_conf(mc), SPConfig)
+                    mds.append(self.md[("sp", self.sp_key(mc))])
+                conf = self.idp_conf(c)
+                conf["metadata"] = {"inline": mds}
+                self.idps[(ki, group)] = Server(config=IdPConfig().load(copy.deepcopy(conf)))
+            self.idps[(ki, ks)] = self.idps[(ki, group)]
         if (ks, ki) not in self.sps:
             from saml2_tophat.client import Saml2Client
             conf = self.sp_conf(c)
@@ -748,6 +772,21 @@ def q(tag, ns=SAML_NS):
     return "{%s}%s" % (ns, tag)
 
 
+def tool_decrypt(xml, keyfile):
+    """open the EncryptedData with the stand-in tool itself (no pysaml2 code involved)"""
+    import tempfile
+    import xmlsec_core
+    with tempfile.TemporaryDirectory() as d:
+        fin, fout = d + "/in.xml", d + "/out.xml"
+        with open(fin, "wb") as fh:
+            fh.write(xml.encode("utf-8"))
+        rc, _, err = xmlsec_core.run(["xmlsec1", "--decrypt", "--privkey-pem", keyfile, "--output", fout, fin])
+        if rc != 0:
+            raise RuntimeError("stand-in tool cannot open the EncryptedData: %r" % err)
+        with open(fout, "rb") as fh:
+            return fh.read()
+
+
 def inspect(world, c, xml):
     """(response signed, assertion signed, encrypted, assertion element) of the built message"""
     idp, sp = world.get(c)
@@ -755,9 +794,8 @@ def inspect(world, c, xml):
     rsig = root.find(q("Signature", DS_NS)) is not None
     enc = root.find(q("EncryptedAssertion")) is not None
     if enc:
-        keyfile = env.key({"own": "sp", "two": "sp2", "none": c["give_cert"] or "sp"}[c["sp_enc"]] if not c["give_cert"] else c["give_cert"])
-        plain = sp.sec.crypto.decrypt(xml, keyfile, sp.sec.id_attr) if hasattr(sp.sec, "id_attr") else None
-        root2 = ET.fromstring(plain.encode("utf-8") if isinstance(plain, str) else plain)
+        keyname = c["give_cert"] or {"own": "sp", "two": "sp2", "none": "sp"}[c["sp_enc"]]
+        root2 = ET.fromstring(tool_decrypt(xml, env.key(keyname)))
         a = root2.find(q("EncryptedAssertion") + "/" + q("Assertion"))
         if a is None:
             a = root2.find(q("Assertion"))
@@ -778,7 +816,9 @@ def canon_name(n):
 
 
 def canon_el(e):
-    return [canon_name(e.tag), sorted([canon_name(k), v] for k, v in e.attrib.items()), e.text or "", [canon_el(k) for k in e]]
+    # xsi:type / xsi:nil are typing metadata, not asserted values: left out on both sides
+    return [canon_name(e.tag), sorted([canon_name(k), v] for k, v in e.attrib.items() if not canon_name(k).startswith("xsi:")), e.text or "",
+            [canon_el(k) for k in e]]
 
 
 def payload_canon(a):
@@ -977,6 +1017,15 @@ def gen_cases(ctx):
                                    session_nooa=None, authn={"class_ref": PASSWORD}))
     for _ in range(140 if ctx.quick else 6000):
         cases.append(rand_case())
+    # ONE IdP object answering two SPs in turn, each with its own policy section (lifetime, name_form) and requirements
+    for n in range(24 if ctx.quick else 400):
+        member = GROUPS["two-sps"][[0, 1, 1, 0, 0, 1][n % 6]]
+        sp_id = IDS[member["ids"]][1]
+        lt, nf2 = policy_expect(POLICIES["two-sps"](sp_id), sp_id)
+        fl = dict(sign_response=member["wants"][0] or rng.random() < 0.4, sign_assertion=member["wants"][1] or rng.random() < 0.4, encrypt_assertion=rng.random() < 0.4)
+        cases.append(rand_case(group="two-sps", policy="two-sps", idp_defaults={}, flags=fl, give_cert=None, solicited=True, session_nooa=None,
+                               authn={"class_ref": PASSWORD}, identity=rand_identity(ctx, pool, [o for o in outside if o], nf2, short, nmax=4),
+                               offset=rng.choice([0, 1, lt - 1, 91, lt // 2]), **member))
     # long / many-valued
     cases.append(rand_case(identity={"givenName": ["v%04d é&<>\" " % i for i in range(1500)], "mail": ["x" * 20000, ""]}, offset=0, solicited=True,
                            wants=(True, True, False), flags=dict(sign_response=True, sign_assertion=True, encrypt_assertion=True), sp_enc="own",
